@@ -83,6 +83,30 @@ func init() {
 	}, map[string]int{"NM-visit": 3, "NM-number": 6, "NM-walk": 1, "NM-isptr": 2, "NM-gate": 1, "EF-name-only": 1},
 		"The labelling is decided structurally over all SSA paths of nameArguments, its visitor closure and Args.walk: only values classified as pointers enter the table, keyed by value, each occurrence appended in place (walk passes the address of the element itself and recurses into aggregates); inPrimary is OR-accumulated from 'index of the goroutine == 0'; phase 1 takes exactly the values with more than one occurrence that occur in the first goroutine, phase 2 every remaining value not seen in the first goroutine; in both phases all occurrences of one value receive '#'+number with the same number and the number advances by exactly one per named value (none for a skipped one); both key lists are collected from the map and totally sorted ascending (MO class B with uint64Slice.Less); the only call site of nameArguments is guarded by exactly opts.NameArguments (NM-gate); the only snapshot field nameArguments writes is Arg.Name (EF-name-only, points-to); IsPtr is a function of the value alone (NM-isptr). Consistency, distinctness, density and order follow from numbering distinct sorted map keys.",
 		"a map has at most one entry per key (distinct values get distinct numbers)")
+	p("C20", []RuleSel{
+		{"WEB", []string{"WEB-*"}},
+		{"EF", []string{"EF-globals"}},
+		{"BN", []string{"WEB-trunc", "LP-loop"}},
+		{"RX", []string{"RX-model", "RX-status"}},
+	}, map[string]int{"WEB-status": 3, "WEB-method": 1, "WEB-validate": 3, "WEB-grow": 3, "WEB-opts": 1},
+		"The structural half of the handler contract is decided over all SSA paths of SnapshotHandler: the method test precedes everything, a non-GET gets exactly one 405, every invalid parameter value ends in exactly one 4xx reply followed by return, a failed snapshot in a 500, and the page (the aggregated snapshot written to the response) is produced only on the path without any error reply; options are created per request (WEB-opts) and no package-level state of webstack/stack is written (EF-globals), so requests cannot influence each other; the capture loop strictly grows the buffer to min(2n, maxmem) until the dump fits or maxmem is reached (WEB-grow, LP); every header and frame shape runtime.Stack prints is accepted by the parser patterns (RX). Not decided: anything about the live runtime, goroutine churn or request interleavings.",
+		"net/http serialises nothing for us: handler re-entrancy rests on EF-globals; html/template execution is concurrency-safe")
+	p("C19", []RuleSel{
+		{"AUG", []string{"AUG-*"}},
+		{"FL", []string{"AUG-gate"}},
+		{"EF", []string{"EF-augment-only"}},
+		{"BN", []string{"PN-panic", "PN-implicit", "LP-loop", "BN-neg"}},
+	}, map[string]int{"AUG-words": 20, "AUG-decode": 12, "AUG-fmt": 2, "AUG-name": 1, "AUG-errors": 1, "EF-augment-only": 1},
+		"For every supported parameter kind the number of flattened words augmentCall consumes is compared with the number of words the runtime prints for that kind (bool/ints/floats/pointer/map/chan/func 1, string 2, slice 3, interface 2): the type-string shape each AST kind produces is pushed through augmentCall's dispatch by deciding its string tests on the abstract shape, over all paths of one loop iteration (AUG-words); each sized signed integer and each float is decoded through the type and bit width of the same name (AUG-decode); popFmt/popName render the value itself, '_' or '<nil>' and nothing else (AUG-fmt); a frame is augmented only with the declaration found at its line whose name is a component of the frame's function name, and only when locating it succeeded (AUG-name); augmentation runs iff the option is set, its error is ignored by the caller, nothing on the way panics explicitly and its loops terminate (AUG-gate, AUG-errors, PN, LP); the only snapshot field it writes is Args.Processed (EF-augment-only, points-to) — raw values never change. Not decided: that the rendered text equals the value for the kinds whose table entry is right (it is decoded by the named stdlib formatter).",
+		"Go ABI word counts of the supported kinds as listed in the checker table; strconv/math format correctly")
+	p("C18", []RuleSel{
+		{"LOC", []string{"LOC-*"}},
+		{"FL", []string{"LOC-gate"}},
+		{"BN", []string{"BN-neg"}},
+		{"MO", []string{"MO-range"}},
+	}, map[string]int{"LOC-branch": 5, "LOC-sep": 3, "LOC-search": 2, "LOC-testmain": 1, "LOC-consts": 1},
+		"Claimed narrowly: the structural clauses. Every match branch of Call.updateLocations pairs (root kind, separator, Location constant, local-path construction): the relative path is what follows the matched prefix, the local path ends with the relative path, the class is assigned only while still unknown (keeps the _testmain.go special case), and the no-match path writes nothing (LOC-branch); roots are matched only at a path-component boundary in updateLocations, hasPrefix and hasSrcPrefix (LOC-sep); the upward go.mod search covers every ancestor directory and the split search every split point (LOC-search); the directory constants agree between the sibling functions (LOC-consts); root arithmetic cannot go negative (BN-neg); roots are tried in a fixed order, nested ones first (MO). Not decided: which roots are found for a given disk layout (I/O-dependent search), i.e. that every frame whose file exists locally is mapped to it.",
+		"the file system answers isFile/ReadFile truthfully")
 	p("C07", []RuleSel{
 		{"SM", []string{"SM-ref", "SM-progress", "SM-looking-clean", "SM-done-remainder"}},
 		{"FL", []string{"FL-remainder", "FL-suffix-once", "FL-line-once", "FL-reader-fresh"}},
